@@ -1,6 +1,6 @@
 CONSTANTS
   RuleAlphabet = {"^", "$", "a", "."}
-  HostAlphabet = {"a", "b", "."}
+  HostAlphabet = {"a", ".", "A", " "}
   MaxRule = 2
   MaxHost = 3
   Mode = "policy"
@@ -9,6 +9,8 @@ CONSTANTS
   CacheKey = "none"
   HistRule = 1
   HistLen = 3
+  AllowedAlphabet <- PlainAlphabet
+  PollAlphabet <- CaseBlankAlphabet
 SPECIFICATION PSpec
 INVARIANTS HistoryIndependent RejectedNeverRegistered ExplicitReject RegisteredAcceptsAllowed
 CHECK_DEADLOCK FALSE
